@@ -212,8 +212,11 @@ func classifyRead(sc Scenario, got, want string) string {
 
 func classifyDiff(sc Scenario, base, mw Obs) string {
 	sameInfos := strings.Join(mw.Client.Infos, "|") == strings.Join(base.Client.Infos, "|")
-	if len(base.Client.Infos) > 0 && (mw.Client.Status != base.Client.Status || !sameInfos) {
-		// the handler sent a 1xx informational response before its final status
+	if len(base.Client.Infos) > 0 {
+		// The handler sent a 1xx informational response before its final header
+		// (strict writer only: the recorder takes 1xx as final with and without the
+		// middleware). The interceptor's state machine takes it for the final
+		// WriteHeader, which derails status, informational and header handling alike.
 		return "passthrough:1xx-informational-WriteHeader-taken-as-final"
 	}
 	field := "body"
